@@ -137,6 +137,21 @@ def calls_uncontracted_helper(r, f):
     return None
 
 
+def lost_proof_support(r, f, base_unit=None):
+    """relaxed-anchor notes of the failing function that WEAKEN its proof (skipped/dropped/moved ghost text); renames do not.
+    A closure expression that the baseline text of the function did not have counts too: it has no contract, so Verus
+    knows nothing about its result."""
+    out = []
+    nb = (base_unit or {}).get('fn_closures', {}).get(f['fn'])
+    nn = getattr(r, 'fn_closures', {}).get(f['fn'])
+    if nb is not None and nn is not None and nn > nb:
+        out.append('the function now contains %d closure expression(s), %d on the pinned tree: the new one has no contract' % (nn, nb))
+    for x in getattr(r, 'relaxed', []):
+        if x.startswith(f['fn'] + ':') and any(k in x for k in ('skipped', 'dropped', 'moved to loop', 'header is', 'not found')):
+            out.append(x[len(f['fn']) + 1:].strip())
+    return out
+
+
 def run_property(pid, tier, seed):
     t0 = time.time()
     if pid not in PROPS:
@@ -202,6 +217,12 @@ def run_property(pid, tier, seed):
                 w = wcache[u]
             except Exception as e:  # witness search only decorates
                 w = None
+            lost = lost_proof_support(results[u], f, base.get(u, {}))
+            if lost and w is None:
+                # the changed text lost ghost support of this very function (a hint or loop/closure contract could not be placed):
+                # a failed proof is then expected even if the code is right; without a failing input it is undecided, not an alarm
+                undecided.append((u, 'obligation %s of %s fails, but ghost support of that function could not be placed on the changed text (%s) and no failing input was found' % (f['obligation'], f['fn'], '; '.join(lost)[:300])))
+                continue
             helper = calls_uncontracted_helper(results[u], f)
             if helper and w is None:
                 # modular proof impossible (callee without contract) and no failing input on the real code: undecided, not an alarm
@@ -322,6 +343,8 @@ def rebaseline(pid=None):
             'labels': r.labels,
             'verified': r.verified,
             'sentinels': list(r.sentinels),
+            'fn_idents': getattr(r, 'fn_idents', {}),
+            'fn_closures': getattr(r, 'fn_closures', {}),
         }
     os.makedirs(os.path.dirname(BASELINE), exist_ok=True)
     json.dump(base, open(BASELINE, 'w'), indent=1, sort_keys=True)
